@@ -26,7 +26,7 @@ Definition r_date : str -> m := seq (opt (ch 45)) (seq (times 4 (one digit)) (se
 Definition r_tz : str -> m := alt (seq (alt (ch 43) (ch 45)) (seq (times 2 (one digit)) (seq (ch 58) (times 2 (one digit))))) (ch 90).
 Definition r_time : str -> m :=
   seq (times 2 (one digit)) (seq (ch 58) (seq (times 2 (one digit)) (seq (ch 58) (seq (times 2 (one digit))
-      (seq (opt (seq (ch 46) (many1 re_space))) (opt r_tz)))))).
+      (seq (opt (seq (ch 46) (many1 digit))) (opt r_tz)))))).
 Definition r_datetime : str -> m := seq r_date (seq (ch 84) r_time).
 Definition r_number : str -> m :=
   alt (seq (opt (ch 45)) (seq (many1 digit) (seq (ch 46) (many digit))))
